@@ -216,12 +216,14 @@ Qed.
 Lemma node_okb_spec sch p s ch : node_okb sch p s ch = true <-> node_ok sch p s ch.
 Proof.
   unfold node_okb, node_ok. destruct (lookup sch s) as [i|].
-  - rewrite andb_true_iff, opt_sid_eqb_eq, forallb_forall. split.
-    + intros [H1 H2]. exists i. repeat split; try assumption. intros k Hk.
-      specialize (H2 k Hk). apply existsb_exists in H2. destruct H2 as [c [Hc Hs]]. apply N.eqb_eq in Hs.
-      exists c. split; assumption.
-    + intros [j [Hj [H1 H2]]]. inversion Hj; subst j. split; [assumption|]. intros k Hk.
-      destruct (H2 k Hk) as [c [Hc Hs]]. apply existsb_exists. exists c. split; [assumption|]. apply N.eqb_eq. exact Hs.
+  - rewrite !andb_true_iff, opt_sid_eqb_eq, forallb_forall, orb_true_iff, negb_true_iff. split.
+    + intros [[H1 H2] H3]. exists i. repeat split; try assumption.
+      * intros k Hk. specialize (H2 k Hk). apply existsb_exists in H2. destruct H2 as [c [Hc Hs]]. apply N.eqb_eq in Hs.
+        exists c. split; assumption.
+      * intro Ht. destruct H3 as [H3|H3]; [congruence|]. destruct ch; [reflexivity|discriminate].
+    + intros [j [Hj [H1 [H2 H3]]]]. inversion Hj; subst j. repeat split; [assumption| |].
+      * intros k Hk. destruct (H2 k Hk) as [c [Hc Hs]]. apply existsb_exists. exists c. split; [assumption|]. apply N.eqb_eq. exact Hs.
+      * destruct (is_term_kind (si_kind i)); [right; rewrite (H3 eq_refl); reflexivity|left; reflexivity].
   - split; [discriminate|]. intros [j [Hj _]]. discriminate.
 Qed.
 
@@ -381,7 +383,7 @@ Qed.
 Lemma canon_key_present sch p n i k :
   CanonN sch p n -> lookup sch (d_sid n) = Some i -> In k (si_keys i) -> exists c, find_sid (d_ch n) k = Some c.
 Proof.
-  destruct n as [s v d m ch]. rewrite CanonN_unfold. intros [[j [Hj [_ Hk]]] _] Hi Hin. cbn [d_sid d_ch] in *.
+  destruct n as [s v d m ch]. rewrite CanonN_unfold. intros [[j [Hj [_ [Hk _]]]] _] Hi Hin. cbn [d_sid d_ch] in *.
   rewrite Hi in Hj. inversion Hj; subst j.
   destruct (Hk k Hin) as [c [Hc Hs]].
   destruct (find_sid ch k) as [c'|] eqn:E; [exists c'; reflexivity|].
